@@ -4,6 +4,7 @@ package props
 import (
 	"fmt"
 	"strings"
+	"verif/internal/llvmref"
 
 	"github.com/llir/llvm/asm"
 	"github.com/llir/llvm/ir"
@@ -118,4 +119,25 @@ func must(err error) {
 	if err != nil {
 		panic(fmt.Sprintf("harness error: %v", err))
 	}
+}
+
+// lliExit runs a module text with lli and returns the exit code of @main.
+// ok is false when lli could not execute the program (not a verdict).
+func lliExit(text string) (exit int, ok bool, note string) {
+	_, se, err := llvmref.Run([]byte(text), llvmref.LLI, "-")
+	if err == llvmref.ErrTimeout {
+		return 0, false, "watchdog"
+	}
+	if err != nil {
+		type exitCoder interface{ ExitCode() int }
+		ee, isExit := err.(exitCoder)
+		if !isExit {
+			return 0, false, "could not be run"
+		}
+		exit = ee.ExitCode()
+	}
+	if exit < 0 || exit > 255 || strings.Contains(string(se), "Stack dump") || strings.Contains(string(se), "LLVM ERROR") {
+		return 0, false, classify(firstLine(string(se)))
+	}
+	return exit, true, ""
 }
